@@ -17,7 +17,7 @@ class C07(Spec):
             "fill and the socket really returns EAGAIN); connection B of the same worker sends a request after a third of "
             "the stall; measured: B is answered within a third of the stall, the number of send calls made on A while it "
             "is stalled (counted through the PISTACHE_VERIF hook) stays below 1000, A finally receives every byte in order "
-            "and its promise is fulfilled with the full size; plus the scripted would-block cases of C06 for the loop-control "
+            "and its promise is fulfilled with the full size; the same with a handler that, during the stall, queues more data for A and calls Transport::flush() on the worker thread (a send attempted on the blocked descriptor without progress); plus the scripted would-block cases of C06 for the loop-control "
             "logic. non-trivial = every case; distinct by (stall, size)")
     assumptions = ["'bounded time' is measured with generous margins (a third of the stall); wall-clock behaviour is a runtime residue",
                    "edge-triggered epoll re-arm is what the kernel does, not modelled"]
@@ -27,6 +27,9 @@ class C07(Spec):
         combos = [(900, 24), (900, 8), (1500, 48)] if tier == "quick" else [(s, m) for s in (900, 1500, 2400) for m in (8, 16, 32, 48, 64)]
         for stall, mb in combos:
             cases.append("S %d %d" % (stall, mb << 20))
+        # ... and with a send attempted on the blocked descriptor that makes no progress (a handler flushing behind the blocked write)
+        for stall, mb in combos[:2] if tier == "quick" else combos[::2]:
+            cases.append("S %d %d f" % (stall, mb << 20))
         for th in "LF":
             for sc in ("w", "w,w", "a1,w,a7,w", "w,a999999,w", "a4096,w,w,w,a1"):
                 cases.append("X %s 200000,1000 %s" % (th, sc))
